@@ -1,18 +1,56 @@
 /-
   Line-protocol driver: one JSON request per line on stdin, one JSON reply per line on stdout.
-  Request: {"id": n, "op": "<entry point>", …}.  Reply: {"id": n, …handler output…} or
-  {"id": n, "err": "…"}.
+  Request: {"id": n, "op": "cNN.<entry point>", …}.  Reply: {"id": n, …handler output…} or
+  {"id": n, "err": "…"}.  Ops are dispatched on their `cNN.` prefix to `Driver/CNN.lean`.
 -/
 import Driver.Util
+import Driver.PyJson
 import Driver.C01
+import Driver.C02
+import Driver.C03
+import Driver.C04
+import Driver.C05
+import Driver.C06
+import Driver.C07
+import Driver.C08
+import Driver.C09
+import Driver.C10
+import Driver.C11
+import Driver.C12
+import Driver.C13
+import Driver.C14
+import Driver.C15
+import Driver.C16
+import Driver.C17
+import Driver.C18
+import Driver.C19
+import Driver.C20
 open Lean Driver
 
 def dispatch (op : String) (j : Json) : Except String Json :=
-  match op with
-  | "ping" => pure (jobj [("pong", jbool true)])
-  | "c01.iter" => C01.iter j
-  | "c01.collect" => C01.collect j
-  | _ => throw s!"unknown op {op}"
+  if op == "ping" then pure (jobj [("pong", jbool true)]) else
+    match (op.take 3).toString with
+    | "c01" => C01.handle op j
+    | "c02" => C02.handle op j
+    | "c03" => C03.handle op j
+    | "c04" => C04.handle op j
+    | "c05" => C05.handle op j
+    | "c06" => C06.handle op j
+    | "c07" => C07.handle op j
+    | "c08" => C08.handle op j
+    | "c09" => C09.handle op j
+    | "c10" => C10.handle op j
+    | "c11" => C11.handle op j
+    | "c12" => C12.handle op j
+    | "c13" => C13.handle op j
+    | "c14" => C14.handle op j
+    | "c15" => C15.handle op j
+    | "c16" => C16.handle op j
+    | "c17" => C17.handle op j
+    | "c18" => C18.handle op j
+    | "c19" => C19.handle op j
+    | "c20" => C20.handle op j
+    | _ => throw s!"unknown op {op}"
 
 partial def loop (hin : IO.FS.Stream) (hout : IO.FS.Stream) : IO Unit := do
   let line ← hin.getLine
